@@ -189,3 +189,9 @@ Proof. vm_compute. split; reflexivity. Qed.
 Example break_after_witness : break_after [97; 32] 769 = false /\ break_after [127462; 127463] 127464 = true
   /\ break_after [127462] 127463 = false /\ break_after [2325; 2381] 2325 = false.
 Proof. vm_compute. repeat split; reflexivity. Qed.
+(** premises of [segment_split] at a context-dependent boundary: after two Regional_Indicators
+    a third one starts a new cluster, and is segmented as at the start of a text *)
+Example segment_split_witness :
+  break_after [127462; 127463] 127464 = true
+  /\ advance (fst (state_of [127462; 127463])) 127464 (gcb 127464) = advance ctx0 127464 (gcb 127464).
+Proof. vm_compute. split; reflexivity. Qed.
